@@ -543,6 +543,29 @@ def control_rules(ck, c, rc, rtab):
         nn_ += 1
         ck.ob("TAB", "interpreter:" + n, "jump-condition", ok,
               "jumps to the encoded target exactly when the condition operand is %s zero" % ("" if zero_jumps else "not"), rc.loc(tb))
+    # operands are 32- or 64-bit values: the only place where the interpreter loop itself narrows an operand is i32.wrap_i64
+    # (sub-word stores and sign extensions go through helpers that are decided with the numeric table). Any other narrowing
+    # cast of an operand - a selector, an address, a count - drops bits the instruction's semantics depends on
+    WID = {"u8": 8, "i8": 8, "u16": 16, "i16": 16, "u32": 32, "i32": 32, "u64": 64, "i64": 64, "usize": 64, "isize": 64}
+    narrow = []
+    for bi in sorted(rc.reachable()):
+        for st in rc.stmts(bi):
+            rv = st.get("rv", {})
+            if rv.get("k") == "cast" and rv.get("ck") == "IntToInt":
+                src = op_place(rv["a"])
+                ts = rc.locals[src[0]] if src and not src[1] else None
+                td = rv.get("ty")
+                if ts in WID and td in WID and WID[td] < WID[ts]:
+                    o = rc.origins(rv["a"], deep=False)
+                    if ("field", "short") in o or ("field", "long") in o:
+                        narrow.append((ts, td, bi))
+    wrap_arm = arm("I32WrapI64")
+    ok_n = all((ts, td) == ("i64", "i32") and wrap_arm and bi in wrap_arm[0] for (ts, td, bi) in narrow) and len(narrow) >= 1
+    nn_ += 1
+    ck.ob("TAB", "interpreter", "operands-narrowed-only-by-wrap", ok_n,
+          "the interpreter loop narrows an operand only in i32.wrap_i64 (%d cast)" % len(narrow) if ok_n else
+          "operand values are narrowed by %s outside i32.wrap_i64: bits of an operand are dropped before it is used" % sorted(set((ts, td) for (ts, td, bi) in narrow if (ts, td) != ("i64", "i32") or not (wrap_arm and bi in wrap_arm[0]))),
+          rc.loc([bi for (ts, td, bi) in narrow if (ts, td) != ("i64", "i32")][0]) if any((ts, td) != ("i64", "i32") for (ts, td, bi) in narrow) else rc.loc())
     for n, stride in (("BrTable", 4), ("BrTableCarry", 8)):
         a = arm(n)
         if not a:
